@@ -459,17 +459,17 @@ Proof. intros C W. rewrite (walk_found _ _ _ _ _ _ C), W. cbn. now rewrite (plug
 Lemma walk_put_get {A} cr ps (k : node -> res (node * A)) :
   stable ps k ->
   forall n n' a, no_null_path ps n = true -> walk cr ps k n = Ok (n', Some a) ->
-  exists x x', k x = Ok (x', a) /\ walk None ps k_get n' = Ok (n', Some x').
+  exists x x', is_null x = false /\ k x = Ok (x', a) /\ walk None ps k_get n' = Ok (n', Some x').
 Proof.
   induction ps as [|p ps IH]; intros S n n' a NN H.
   - cbn in H. destruct (k n) as [[x' a']| | |] eqn:K; cbn in H; inv H.
-    exists n, n'. auto.
+    exists n, n'. apply no_null_here in NN. auto.
   - pose proof (stable_tail _ _ _ S) as S'.
     destruct (child p n) as [x|] eqn:C.
     + rewrite (walk_found _ _ _ _ _ _ C) in H.
       destruct (walk cr ps k x) as [[x' r']| | |] eqn:W; cbn in H; inv H.
-      destruct (IH S' _ _ _ (no_null_child _ _ _ _ NN C) W) as [x0 [x0' [K G]]].
-      exists x0, x0'. split; [exact K|].
+      destruct (IH S' _ _ _ (no_null_child _ _ _ _ NN C) W) as [x0 [x0' [N0 [K G]]]].
+      exists x0, x0'. split; [exact N0|]. split; [exact K|].
       eapply walk_get_found; [|exact G].
       eapply child_plug; eauto. eapply keeps_after_walk; eauto.
     + destruct (walk_missing _ _ _ _ _ _ _ C H) as
@@ -477,11 +477,11 @@ Proof.
                 |[(nm & v & es & leaf & y & -> & -> & -> & F & W & ->)
                  |(nm & v & leaf & y & -> & N & _)]]].
       * discriminate.
-      * destruct (IH S' _ _ _ (no_null_empty_of _ _) W) as [x0 [x0' [K G]]].
-        exists x0, x0'. split; [exact K|].
+      * destruct (IH S' _ _ _ (no_null_empty_of _ _) W) as [x0 [x0' [N0 [K G]]]].
+        exists x0, x0'. split; [exact N0|]. split; [exact K|].
         eapply walk_get_found; [|exact G]. cbn. now apply find_field_app_same.
-      * destruct (IH S' _ _ _ (no_null_sel_new _ _ _) W) as [x0 [x0' [K G]]].
-        exists x0, x0'. split; [exact K|].
+      * destruct (IH S' _ _ _ (no_null_sel_new _ _ _) W) as [x0 [x0' [N0 [K G]]]].
+        exists x0, x0'. split; [exact N0|]. split; [exact K|].
         eapply walk_get_found; [|exact G]. cbn.
         assert (M : sel_match nm v y = true).
         { eapply sel_stable; [exact W|apply sel_match_sel_new|]. cbn in S; tauto. }
@@ -665,4 +665,111 @@ Proof.
         rewrite (IH S' qs' _ _ _ D' (or_introl (no_sel_key_read_tail _ _ SC)) W).
         eapply lookup_sel_new_none; eauto.
         cbn in SC. destruct qs' as [|[] ?]; tauto.
+Qed.
+
+(* ---------- absent children without creation; composition of lookups ---------- *)
+Definition miss {A} (p : part) (n : node) : res (node * option A) :=
+  match p with
+  | PKey _ => match n with Map _ => Ok (n, None) | _ => if is_null n then Ok (n, None) else Err end
+  | PIdx _ => match n with Seq _ => Ok (n, None) | _ => if is_null n then Ok (n, None) else Err end
+  | PLast => match n with Seq _ => Panic | _ => if is_null n then Panic else Err end
+  | PSel _ _ => match n with Seq _ => Ok (n, None) | _ => if is_null n then Ok (n, None) else Err end
+  | _ => Err
+  end.
+
+Lemma walk_missing_nocreate {A} p ps (k : node -> res (node * A)) n :
+  child p n = None -> walk None (p :: ps) k n = miss p n.
+Proof.
+  intros C. destruct p; destruct n as [t s v0|kvs|es]; cbn in C |- *; try reflexivity; try discriminate.
+  - now rewrite C.
+  - now rewrite C.
+  - destruct es as [|e es]; [reflexivity|]. cbn in C |- *. rewrite C.
+    (* last element of a non-empty list exists *)
+    exfalso. apply nth_error_None in C. cbn in C. lia.
+  - destruct (find_index (sel_match nm v) es) as [i|] eqn:F; [|reflexivity].
+    destruct (find_index_some _ _ _ F) as [? [? _]]; congruence.
+Qed.
+
+Lemma lookup_app ps qs n :
+  lookup (ps ++ qs) n =
+  match lookup ps n with
+  | Ok (Some x) => lookup qs x
+  | Ok None => Ok None
+  | Err => Err
+  | Panic => Panic
+  | Diverge => Diverge
+  end.
+Proof.
+  revert n; induction ps as [|p ps IH]; intros n; [reflexivity|].
+  destruct (child p n) as [x|] eqn:C.
+  - cbn [app]. now rewrite !(lookup_found _ _ _ _ C).
+  - cbn [app]. unfold lookup at 1 2. rewrite !(walk_missing_nocreate _ _ _ _ C).
+    destruct p; destruct n as [t s v0|kvs|es]; cbn; try reflexivity; try (destruct t; reflexivity).
+Qed.
+
+Lemma lookup_none_walk {A} ps (k : node -> res (node * A)) :
+  forall n, lookup ps n = Ok None -> walk None ps k n = Ok (n, None).
+Proof.
+  induction ps as [|p ps IH]; intros n L; [discriminate|].
+  destruct (child p n) as [x|] eqn:C.
+  - rewrite (lookup_found _ _ _ _ C) in L.
+    rewrite (walk_found _ _ _ _ _ _ C), (IH _ L). cbn. now rewrite (plug_child _ _ _ C).
+  - unfold lookup in L. rewrite (walk_missing_nocreate _ _ _ _ C) in L. rewrite (walk_missing_nocreate _ _ _ _ C).
+    destruct p; destruct n as [t s v0|kvs|es]; cbn in L |- *; try discriminate; try reflexivity;
+      try (destruct t; cbn in L |- *; try discriminate; reflexivity).
+Qed.
+
+(* ---------- continuations equal up to a congruence give walks equal up to it ---------- *)
+Section WalkRel.
+  Variable R : node -> node -> Prop.
+  Hypothesis R_refl : forall n, R n n.
+  Hypothesis R_plug : forall p n y y', R y y' -> R (plug p n y) (plug p n y').
+  Hypothesis R_map_app : forall kvs name y y', R y y' -> R (Map (kvs ++ [(name, y)])) (Map (kvs ++ [(name, y')])).
+  Hypothesis R_seq_app : forall es y y', R y y' -> R (Seq (es ++ [y])) (Seq (es ++ [y'])).
+
+  Definition rel_res {B} (a b : res (node * B)) : Prop :=
+    match a, b with
+    | Ok (d, r), Ok (d', r') => R d d' /\ r = r'
+    | Err, Err | Panic, Panic | Diverge, Diverge => True
+    | _, _ => False
+    end.
+
+  Lemma walk_rel {A} cr ps (k k' : node -> res (node * A)) :
+    (forall x, rel_res (k x) (k' x)) ->
+    forall n, rel_res (walk cr ps k n) (walk cr ps k' n).
+  Proof.
+    intros HK. induction ps as [|p ps IH]; intros n.
+    - cbn. specialize (HK n). destruct (k n) as [[y a]| | |], (k' n) as [[y' a']| | |]; cbn in *; try tauto.
+      destruct HK; subst; auto.
+    - destruct (child p n) as [x|] eqn:C.
+      + rewrite !(walk_found _ _ _ _ _ _ C). specialize (IH x).
+        destruct (walk cr ps k x) as [[y a]| | |], (walk cr ps k' x) as [[y' a']| | |]; cbn in *; try tauto.
+        destruct IH; subst; auto.
+      + destruct cr as [leaf|]; [|rewrite !(walk_missing_nocreate _ _ _ _ C);
+                                  destruct (@miss A p n) as [[d r]| | |]; cbn; auto].
+        destruct p; destruct n as [t s v0|kvs|es]; cbn in C |- *; try discriminate; auto;
+          try (destruct t; cbn; auto; fail).
+        all: try (destruct t; cbn; auto).
+        all: try (rewrite C; cbn; auto).
+        all: try (destruct es as [|e es]; cbn; auto; cbn in C; rewrite C; cbn; auto; fail).
+        all: try (destruct (find_index (sel_match nm v) es) as [i|] eqn:F; [rewrite C; cbn; auto|]).
+        all: match goal with
+             | |- rel_res (bind (walk _ _ _ ?f) _) _ => specialize (IH f)
+             end;
+          match goal with
+          | |- rel_res (bind ?w1 _) (bind ?w2 _) =>
+              destruct w1 as [[y a]| | |], w2 as [[y' a']| | |]
+          end; cbn in *; try tauto; destruct IH; subst; auto.
+  Qed.
+End WalkRel.
+
+Lemma walk_ext {A} cr ps (k k' : node -> res (node * A)) :
+  (forall x, k x = k' x) -> forall n, walk cr ps k n = walk cr ps k' n.
+Proof.
+  intros HK n.
+  assert (H : rel_res eq (walk cr ps k n) (walk cr ps k' n)).
+  { apply walk_rel; try congruence; auto.
+    intros x. rewrite HK. destruct (k' x) as [[y a]| | |]; cbn; auto. }
+  destruct (walk cr ps k n) as [[d r]| | |], (walk cr ps k' n) as [[d' r']| | |]; cbn in H; try tauto.
+  destruct H; subst; auto.
 Qed.
